@@ -261,7 +261,7 @@ def projections : List (String × (Obs → Obs)) :=
    ("C08", fun o => { eraseBodies o with scales := [] })]
 
 def props : List (String × (Input → Obs → Bool) × (Input → Obs → String)) :=
-  [("C01", C01.ok, C01.clause), ("C04", C04.okAll, C04.clauseAll), ("C05", C05.ok, C05.clause),
+  [("C01", C01.ok, C01.clause), ("C04", C04.okAll, C04.clauseAll), ("C05", C05.okAll, C05.clauseAll),
    ("C07", C07.ok, C07.clause), ("C08", C08.ok, C08.clause)]
 
 def tagsOf (out : Outcome) (inp : Input) : List String :=
